@@ -53,7 +53,7 @@ claim("C03", "other",
       "trusted: RST/YAML as the description of the format (errata are listed, not hidden); sa/docs.py table parser",
       "documentation-vs-code table diff + byte-length interval analysis", "DESIGN.md §4 C03")
 claim("C05", "other",
-      "Def-use over the CFG of set_raw/get_raw proves the stored value reaches the store only through from_raw_value on every path (incl. the lenient branch) and get_raw returns to_raw_value(attribute), which with C10's affine inverse gives get_raw(set_raw(r)) = r for all r; effect analysis over the 97-function call graph of save finds no store to / in-place mutation of public non-fresh state and no nondeterminism source; loading runs lenient. n-fold idempotence for arbitrary files depends on run-time values and is declined.",
+      "Def-use over the CFG of set_raw/get_raw proves the stored value reaches the store only through from_raw_value on every path (incl. the lenient branch) and get_raw returns to_raw_value(attribute), which with C10's affine inverse gives get_raw(set_raw(r)) = r for all r; effect analysis over the 97-function call graph of save finds no store to / in-place mutation of public non-fresh state and no nondeterminism source; loading runs lenient; a value-dependent-elision rule (R6) reports every chunk the writer omits under a test on run-time values whose reader rebuilds it from another quantity (one instance on this tree, SLnK, recorded as a known finding with its witness). n-fold idempotence for arbitrary files beyond these structural clauses depends on run-time values and is declined.",
       "trusted: class-hierarchy call resolution (over-approximate), freshness idioms of DESIGN Appendix B",
       "def-use must-pass-through + call-graph effect analysis", "DESIGN.md §4 C05")
 claim("C10", "proof",
